@@ -21,6 +21,13 @@ def gen_round(run, exe, acc, rnd, rno, nprobes):
             raise vlib.Infra("too few admissible bounds for " + e)
         bounds[e] = rnd.sample(cand, NB)
         probes[e] = list(dict.fromkeys(bounds[e] + rnd.sample(acc[e], min(len(acc[e]), nprobes))))
+    # neighbours of the bounds at type-width boundaries (65536, 2^31, 2^63, ...): the oracle is still the real Compare
+    if nprobes:
+        SUF = ["-1", "-0", ".0", "-r1", "+b1", "_p1", "~rc1", "-alpha", ".post1", "a", "-1.el8", ".dev1", "_rc1", "-SNAPSHOT"]
+        near = vlib.accept_filter(run, exe, {e: [v for b in bounds[e] for v in vlib.boundary_variants(b, rnd, 6) + [b + x for x in rnd.sample(SUF, 5)]]
+                                             for e in ECOS}, name="near%d" % rno)
+        for e in ECOS:
+            probes[e] = list(dict.fromkeys(probes[e] + near[e]))
     data = "---- MODULE RangeData ----\nEXTENDS TLC\n" + vlib.tla_fun_of_seqs("BoundsOf", bounds) + "====\n"
     cfg = vlib.cfg_consts(E=set(ECOS), NB=NB) + "INIT Init\nNEXT Next\nINVARIANT Emit\nCHECK_DEADLOCK FALSE\n"
     lines, st, dt = vlib.tlc(run, "MC_Range", cfg, name="gen%d" % rno, workers=8, timeout=900,
